@@ -747,6 +747,18 @@ func protoGenAll(v *verifRun) {
 			Script: []protoDgram{protoRoute(protoUpdate("xnode", "xnode", jObj(jK("me", jNum("1"))), jK("UpdateID", jStr("id-x3")), jK("UpdateSequence", jNum("3"))))}}
 		v.do(protoApply, "session", a)
 	}
+	// an established peer whose update fails a peer check *and* carries a non-positive cost somewhere: the peer checks
+	// come first (reject and removal), the cost filter must not swallow the update
+	for _, upd := range []*jv{
+		protoUpdate("eve", "eve", jObj(jK("me", jNum("7")), jK("ghost", jNum("0"))), jK("UpdateID", jStr("id-e2")), jK("UpdateSequence", jNum("2"))),
+		protoUpdate("eve", "eve", jObj(jK("nobody", jNum("1")), jK("ghost", jNum("-1"))), jK("UpdateID", jStr("id-e2")), jK("UpdateSequence", jNum("2"))),
+		protoUpdate("eve", "mallory", jObj(jK("me", jNum("1")), jK("ghost", jNum("0"))), jK("UpdateID", jStr("id-e2")), jK("UpdateSequence", jNum("2"))),
+		protoUpdate("eve", "eve", jObj(jK("me", jNum("1")), jK("ghost", jNum("0"))), jK("UpdateID", jStr("id-e2")), jK("UpdateSequence", jNum("2"))),
+	} {
+		a := protoArgs{Self: hx("me"), Cost: 1, NodeCost: map[string]float64{}, Conns: []string{},
+			Script: []protoDgram{protoRoute(protoUpdate("eve", "eve", jObj(jK("me", jNum("1"))))), protoRoute(upd)}}
+		v.do(protoApply, "session", a)
+	}
 }
 
 func TestVerifProto(t *testing.T) {
